@@ -136,9 +136,9 @@ func (e *c05Env) oneTree(tree *c05Node, rng *vh.Rand, level int) error {
 	if level >= 1 {
 		cliBytes = e.routeCLI(tree, srcDir, src, withModel, variants)
 	}
-	e.routeLib(tree, srcDir, src, cliBytes, false, false, true)
+	e.routeLib(tree, srcDir, src, cliBytes, false, false, true, withModel)
 	if level == 0 && rng.Chance(1, 3) {
-		e.routeLib(tree, srcDir, src, nil, true, false, false)
+		e.routeLib(tree, srcDir, src, nil, true, false, false, withModel)
 	}
 	// chunked: library with tiny chunks, CLI with the smallest the command line accepts
 	digest := []string{"sha512-256", "sha256"}[rng.Intn(2)]
